@@ -1,0 +1,31 @@
+//go:build verif
+
+// Contracts (machine-checked by /verif/engine, see /verif/DESIGN.md). Comment-only file.
+package addrquota
+
+// ---- C34: quota buckets ---------------------------------------------------------------------------------
+// IPv4 (incl. IPv4-mapped IPv6, via To4) addresses are bucketed by /24 (mask 24 of 32 bits), all others by /64
+// (mask 64 of 128 bits); an unparsable address has no bucket.
+//@ func ipKey
+//@   props C34
+//@   at-call ParseIP as parsed: assert streq(arg0, ipStr)
+//@   at-call To4 as v4: assert arg0 == res(parsed) && !isnil(res(parsed))
+//@   at-call CIDRMask#1 as m4: assert arg0 == 24 && arg1 == 32 && !isnil(res(v4))
+//@   at-call Mask#1 as k4: assert arg0 == res(v4) && arg1 == res(m4)
+//@   at-call CIDRMask#2 as m6: assert arg0 == 64 && arg1 == 128 && isnil(res(v4))
+//@   at-call Mask#2 as k6: assert arg0 == res(parsed) && arg1 == res(m6)
+//@   at-call String#1 as s4: assert arg0 == res(k4)
+//@   at-call String#2 as s6: assert arg0 == res(k6)
+//@   ensures [unparsable-no-bucket] isnil(res(parsed)) ==> len(result) == 0
+//@   ensures [v4-by-24] called(v4) && !isnil(res(v4)) ==> called(s4) && streq(result, res(s4))
+//@   ensures [v6-by-64] called(v4) && isnil(res(v4)) ==> called(s6) && streq(result, res(s6))
+
+// One limiter per bucket, created with the configured rate and burst, looked up and inserted under the quota's lock.
+//@ guarded_by Quota.mu : cache
+//@ func (*Quota).Blocked
+//@   props C34
+//@   at-call ipKey as key: assert streq(arg0, ip)
+//@   at-call Get as get: assert held(q.mu) == wlocked && arg0 == q.cache
+//@   at-call NewLimiter as nl: assert called(get) && !res(get, 1) && arg1 == q.burst
+//@   at-call Add as add: assert held(q.mu) == wlocked && arg0 == q.cache && called(nl) && ref(arg2) == res(nl)
+//@   ensures [no-bucket-never-blocked] len(res(key)) == 0 ==> !result
